@@ -200,8 +200,8 @@ def step (_ : Unit) (toks : List String) : Unit × String :=
       let env := mkEnv vs
       let order := d.order.getD (List.range d.args.length)
       let tree := eval env (dimIndexExpr d.dims d.args order)
-      let D := d.dims.map fun e => (eval env e).toNat
-      let ix := d.args.map fun e => (eval env e).toNat
+      let D := d.dims.map fun e => eval env e
+      let ix := d.args.map fun e => eval env e
       ((), "idx " ++ toString tree ++ " linear " ++ toString (Occa.Dim.linear D ix order)
             ++ " code " ++ toString (Occa.Dim.codeIndex D ix order))
     | _, _ => ((), "bad-op")
